@@ -272,15 +272,15 @@ func corpusMasks() []*maskSpec {
 		return &maskSpec{Black: black, Paths: ps, Strs: renderAll(ps), Style: style}
 	}
 	return []*maskSpec{
-		mk(false, "corpus-list-index", P(nm("l"), ix(3))),          // defect #6: header 2, one element
+		mk(false, "corpus-list-index", P(nm("l"), ix(3))), // defect #6: header 2, one element
 		mk(false, "corpus-set-index", P(nm("st"), ix(3))),
 		mk(false, "corpus-list-index", P(nm("l"), ix(0, 2)), P(nm("li"), ix(1), nm("x"))),
-		mk(true, "corpus-black-required-list", P(nm("rl"))),       // header n, no element (before C13-2)
+		mk(true, "corpus-black-required-list", P(nm("rl"))), // header n, no element (before C13-2)
 		mk(true, "corpus-black-required-map", P(nm("rsm"))),
 		mk(true, "corpus-black-star-nested", P(nm("ll"), idxStar)), // outside the domain
 		mk(true, "corpus-black-star-nested", P(nm("lm"), idxStar)),
 		mk(true, "corpus-black-required-struct", P(nm("rq"))),
-		mk(false, "corpus-filtered-fields", P(nm("l"))),            // zero_required: other fields must be absent
+		mk(false, "corpus-filtered-fields", P(nm("l"))), // zero_required: other fields must be absent
 		mk(false, "corpus-map-keys", P(nm("im"), ki(1), nm("y")), P(nm("im"), ki(5))),
 		mk(true, "corpus-map-keys", P(nm("im"), ki(1), nm("y")), P(nm("li"), ix(0, 7))),
 		{Nil: true, Style: "nil"},
